@@ -92,3 +92,12 @@ Example C18_example :
   run_with ["v"%string] (Some (5%nat, EIO)) = (true, Some true) /\
   run_with ["missing"%string] None = (false, Some false).
 Proof. vm_compute. repeat split. Qed.
+
+(** The kinds of error the library's source inspects are those the model handles
+    (regenerated from the source on every run). *)
+From Kismet Require Import Gen.Constants Gen.ErrKinds.
+Theorem C18_error_kinds_inspected :
+  Constants.ERROR_KINDS_INSPECTED =
+  ["benign_error.rs:ESTALE"; "benign_error.rs:NotFound"; "cache_dir.rs:InvalidInput"; "lib.rs:Other";
+   "raw_cache.rs:AlreadyExists"; "stack.rs:NotFound"; "stack.rs:Unsupported"]%string.
+Proof. exact error_kinds_inspected. Qed.
